@@ -29,11 +29,12 @@ Fused(SA, SB, m) ==
 \* --- what a disambiguation step may do with a chosen renaming sg ----------
 \* the clash set itself is under-determined between Must and May (see C20_Imperative)
 RenamingAdmissible(SA, SB, flt, sg) ==
+    LET ya == IdentsMay(SA)  yb == IdentsMay(SB) IN
     /\ ClashMust(SA, SB, flt) \subseteq DOMAIN sg
     /\ DOMAIN sg \subseteq (IF Buggy = "FilterIgnored"
-                            THEN IdentsMay(SA) \cap IdentsMay(SB) ELSE ClashMay(SA, SB, flt))
+                            THEN ya \cap yb ELSE {x \in ya \cap yb : Pass(flt, x)})
     /\ Injective(sg)
-    /\ Range(sg) \cap (IdentsMay(SA) \cup IdentsMay(SB)) = {}
+    /\ Range(sg) \cap (ya \cup yb) = {}
 Disambiguated(SB, sg) ==
     IF Buggy = "RenameRhsOnly"
     THEN [i \in 1..Len(SB) |-> [SB[i] EXCEPT !.rhs = RenameE(@, sg)]]
